@@ -1184,6 +1184,24 @@ impl<'s> Runner<'s> {
                 return Err(stop);
             }
         }
+        // An absolute expectation that does not go through the fresh VM (a cache shared by all VMs of
+        // the process would mislead the history VM and the reference alike): the straight-line helper
+        // program calls its keys in program order, and the harness functions that actually ran must be
+        // the ones bound to those keys - now (interpreter), or now / when the code was compiled.
+        if self.sc.progs[pid].class == Class::Helper && obs.outcome.is_ok() && case != Case::Stale {
+            let keys = helper_keys(&self.sc.progs[pid].bytes);
+            if keys.len() == obs.helper_log.len() {
+                for (i, (k, (hid, _))) in keys.iter().zip(obs.helper_log.iter()).enumerate() {
+                    let now = m.helpers.get(k).copied();
+                    let then = if engine == Engine::Interp { None } else { m.compiled(engine).as_ref().and_then(|c| c.helpers.get(k).copied()) };
+                    self.counters.inc("helper_binding_checked_absolutely");
+                    if Some(*hid) != now && Some(*hid) != then {
+                        let name = |h: Option<u8>| h.map(|h| H_NAMES[h as usize].to_string()).unwrap_or("nothing".into());
+                        return Err(self.c10(cls(format!("wrong-helper-called/{}", engine.name())), at, format!("call #{} of prog#{} (key {:#x}) ran harness function '{}'; bound to that key now: '{}'{}", i, pid, k, H_NAMES[*hid as usize], name(now), if engine == Engine::Interp { String::new() } else { format!(", when the code was compiled: '{}'", name(then)) })));
+                    }
+                }
+            }
+        }
         if case == Case::Stale && obs.outcome.is_err() {
             // invalidated compiled code: the documented "not compiled" error
             self.counters.inc("stale_compiled_exec_refused");
